@@ -140,6 +140,8 @@ class EpisodeMonitor:
                 want = 0 if key in seen else 1
                 if o["execs"] != want:
                     self.fail("C03", f"call {op}: body ran {o['execs']} times, expected {want} (key {'seen' if key in seen else 'new'} on {inst})")
+            if s["thread"] and key not in seen and o["execs"] == 0:
+                self.fail("C14", f"call {op}: thread {th} never called this key, yet it was served from a cache (a value stored by another thread)")
             seen.add(key)
             # C09: an Err is never served from the cache
             if s["is_result"] and not s["cache_if"]:
@@ -187,6 +189,15 @@ class EpisodeMonitor:
                     self.rejected.pop((inst, key), None)
                 else:
                     self.rejected[(inst, key)] = not stored
+                # async engines evict BEFORE storing, so an accepted, fitting result is always present afterwards
+                oversize = s["use_mem"] and s["maxmem"] is not None and o["wsize"] > s["maxmem"]
+                d = dumps.get(inst)
+                if s["is_async"] and stored and not oversize and (d is None or key not in d[0] or d[0][key][0] != o["would"]):
+                    pid = "C10" if s["cache_if"] else ("C09" if s["is_result"] else "C01")
+                    self.fail(pid, f"call {op}: the result was accepted for caching but the cache does not hold it afterwards")
+                if (not stored) and d is not None and key in d[0] and d[0][key][0] == o["would"] and not o["check"]:
+                    pid = "C10" if s["cache_if"] else "C09"
+                    self.fail(pid, f"call {op}: a result that must not be cached (rejected / Err) is in the cache afterwards")
             # C14: a thread-scope call touches only its own thread's instance
             if prev is not None:
                 for lbl, d in dumps.items():
@@ -264,6 +275,11 @@ class EpisodeMonitor:
                     for lbl, d in dumps.items():
                         if lbl != inst and prev.get(lbl) != d:
                             self.fail("C20", f"{op}: resuming the call changed another cache instance {lbl}")
+                    before, after = prev.get(inst), dumps.get(inst)
+                    if before and after and key in before[0] and s["maxmem"] is None:
+                        lost = [k for k in before[0] if k != key and k not in after[0]]
+                        if lost:
+                            self.fail("C20", f"{op}: the resumed call's key was already cached, yet storing its result displaced {len(lost)} other entr{'y' if len(lost) == 1 else 'ies'} (a normal store replaces in place)")
                 # bookkeeping shared with the C09/C10 monitors
                 ci = (o["pred"][0][3] == "1") if o.get("pred") else True
                 stored = ci if s["cache_if"] else True
